@@ -1453,6 +1453,50 @@ def _nas_cases(rnd, table, shapes, tier):
                     cases.append({"id": idn, "kind": "msg", "name": name, "hdr": hdr, "mand": mand, "opt": [], "perm": []})
                     idn += 1
                     q += 1
+    # twins: two information elements of one message with the same contents (the additional GUTI equal to the 5GS mobile identity, two
+    # containers holding the same octets), and containers whose contents are a complete NAS message (a REGISTRATION REQUEST / SERVICE
+    # REQUEST repeated inside a SECURITY MODE COMPLETE) in table order, reversed and rotated: no IE says anything about another one
+    for name in sorted(table):
+        t = table[name]
+        sh = byname.get(name)
+        so = (sh or {}).get("opt") or []
+        oshapes = so if len(so) == len(t["opt"]) else [None] * len(t["opt"])
+        sm = (sh or {}).get("mand") or []
+        mshapes = sm if len(sm) == len(t["mand"]) else [None] * len(t["mand"])
+        var_opt = [i for i, row in enumerate(t["opt"]) if row[1] in ("TLVE", "LVE", "TLV", "LV") and (name, row[0]) not in isolated
+                   and not (oshapes[i] and oshapes[i]["kind"] not in ("lv-buffer", "lve-buffer"))]
+        var_mand = [i for i, (row, s2) in enumerate(zip(t["mand"], mshapes)) if row[1] in ("LV", "LVE") and not (s2 and s2["kind"] not in ("lv-buffer", "lve-buffer"))]
+        # array-backed elements take part where the standard allows them the length of the shared contents
+        arr_opt = [i for i, row in enumerate(t["opt"]) if row[1] in ("TLVE", "LVE", "TLV", "LV") and (name, row[0]) not in isolated
+                   and oshapes[i] and oshapes[i]["kind"] in ("lv-array", "lve-array")]
+        if len(var_opt) + len(var_mand) + len(arr_opt) < 1 or len(t["opt"]) + len(var_mand) < 2:
+            continue
+        for shape in range(3):
+            content = [[0xf2, 0x02, 0xf8, 0x39, 0xca, 0xfe, 0x00, 0x00, 0x00, 0x00, 0x01],
+                       [0x7e, 0x00, 0x41, 0x79, 0x00, 0x0d, 0x01, 0x02, 0xf8, 0x39, 0xf0, 0xff, 0x00, 0x00, 0x00, 0x00, 0x47, 0x78, 0x2e, 0x02, 0x80, 0x20],
+                       [0x7e, 0x00, 0x4c, 0x10, 0x00, 0x07, 0xf4, 0x00, 0x40, 0x00, 0x00, 0x00, 0x01]][shape]
+            hdr = [0] if t["epd"] == 126 else [rnd.randrange(256), rnd.randrange(256)]
+            mand = [[rnd.randrange(256) for _ in range(val_len(r2[1], r2[2], s2, 1))] for (r2, s2) in zip(t["mand"], mshapes)]
+            for i in var_mand:
+                mand[i] = list(content)
+            opt = []
+            for j, rj in enumerate(t["opt"]):
+                if (name, rj[0]) in isolated:
+                    continue
+                if j in var_opt or (j in arr_opt and len(content) in arr_allowed(rj[0], oshapes[j]["cap"])):
+                    v = list(content)
+                elif rj[1] == "TV1":
+                    v = [rnd.randrange(16)]
+                else:
+                    v = [rnd.randrange(256) for _ in range(val_len(rj[1], rj[2], oshapes[j], 1 + j, rj[0]))]
+                opt.append({"iei": rj[0], "v": v})
+            k2 = len(opt)
+            perms = [list(range(1, k2 + 1))]
+            if k2 > 1:
+                perms += [list(range(k2, 0, -1)), list(range(2, k2 + 1)) + [1]]
+            for perm in perms:
+                cases.append({"id": idn, "kind": "msg", "name": name, "hdr": hdr, "mand": mand, "opt": opt, "perm": perm})
+                idn += 1
     known5gmm = {t["mt"] for t in table.values() if t["epd"] == 126}
     known5gsm = {t["mt"] for t in table.values() if t["epd"] == 46}
     for mt in range(256):
